@@ -484,6 +484,26 @@ func (c *Cron) schedule(ctx *core.Context, job *CronJob, checkLimit bool) error 
 	return err
 }
 
+// ParseCronExpr is cronexpr.Parse, except that an expression that
+// makes the parser (or the computation of its occurrences) panic (a
+// reversed range such as "1-0 * * * *" does)
+// is an error, too.
+func ParseCronExpr(schedule string) (expr *cronexpr.Expression, err error) {
+	defer func() {
+		if caught := recover(); caught != nil {
+			expr = nil
+			err = fmt.Errorf("bad cron expression '%s': %v", schedule, caught)
+		}
+	}()
+	expr, err = cronexpr.Parse(schedule)
+	if err == nil {
+		// Some expressions parse and panic later, when they are
+		// asked for an occurrence.  Ask now.
+		expr.Next(time.Now().UTC())
+	}
+	return expr, err
+}
+
 // Add creates a new cron job.
 //
 // Use the ID to Rem() that job later if you want.  F is the work to
@@ -525,7 +545,7 @@ func (c *Cron) Add(ctx *core.Context, id string, schedule string, f func(t time.
 			return fmt.Errorf("bad one-shot schedule '%s'", schedule)
 		}
 	} else {
-		expr, err := cronexpr.Parse(schedule)
+		expr, err := ParseCronExpr(schedule)
 		if err != nil {
 			return err
 		}
